@@ -122,6 +122,16 @@ def identLike (w : Str) : Prop :=
   | [] => False
   | h :: t => isIdStart h = true ∧ ∀ c ∈ t, isIdCont c = true
 
+/-- `identLike` as a check (for the extracted name tables) -/
+def identLikeB : Str → Bool
+  | [] => false
+  | h :: t => isIdStart h && t.all isIdCont
+
+/-- every family prefix, fixed name and head of a table is spelled like an identifier (a family `""` or `1_`
+    would make `prefix ++ id` something else than one name) -/
+def NameSpec.wellSpelled (s : NameSpec) : Bool :=
+  s.families.all identLikeB && s.fixed.all identLikeB && s.heads.all identLikeB
+
 /-- a single piece is well formed -/
 def Piece.ok : Piece → Prop
   | .op c => isOpChar c = true
@@ -144,10 +154,14 @@ def Piece.isKey : Piece → Bool
   | _ => false
 
 /-- adjacency: two identifier-like pieces need a separator, two string literals are never
-    adjacent, a comment runs to the end of its line, indentation is part of `nl`. -/
+    adjacent, a quoted key never directly follows an identifier-like piece (that is the position of a
+    string PREFIX: `f'{…}'`, `rb'…'` are read by CPython as ONE prefixed literal whose contents are
+    interpreted differently — the character-level lexer below does not model prefixes, so such
+    texts are outside the well-formed fragment; it is the condition `Site.ctxOk` the translator
+    checks on every `!r` site), a comment runs to the end of its line, indentation is part of `nl`. -/
 def adjOk : Piece → Piece → Bool
   | a, b =>
-    !(a.isWordy && b.isWordy) && !(a.isKey && b.isKey)
+    !(a.isWordy && b.isWordy) && !(a.isKey && b.isKey) && !(a.isWordy && b.isKey)
     && (match a, b with
         | .comment _, .nl _ => true
         | .comment _, _ => false
@@ -168,6 +182,22 @@ def Piece.toTok : Piece → Option Tok
   | .key k => some (.str k)
   | .int d => some (.num d)
   | .comment _ => some .comment
+
+/-- `_parenthesize(parentheses, elements)` of code_tools/utils.py for elements that are strings
+    (`parentheses[0] + ", ".join(map(repr, elements)) + parentheses[1]`): how `get_literal_expr` writes a list /
+    tuple / set of keys (`known_keys = {'a', 'b'}` in the closure preamble, container defaults, trail elements). -/
+def keySeqTail (close : Nat) : List Str → List Piece
+  | [] => [.op close]
+  | k :: t => .op 44 :: .sp :: .key k :: keySeqTail close t
+
+def keySeq (opn close : Nat) : List Str → List Piece
+  | [] => [.op opn, .op close]
+  | k :: t => .op opn :: .key k :: keySeqTail close t
+
+/-- the tokens such a literal must have: the bracket, the strings separated by single commas, the bracket -/
+def keySeqToks (opn close : Nat) : List Str → List Tok
+  | [] => [.op opn, .op close]
+  | k :: t => .op opn :: .str k :: (t.flatMap (fun k' => [Tok.op 44, Tok.str k']) ++ [.op close])
 
 /-! ## skeleton -/
 
